@@ -138,6 +138,9 @@ type Entry struct {
 	// Fields maintained internally.
 	hlen         int // Length of the header.
 	valThreshold int64
+	// moved is set on entries which value log GC writes back: they carry an old version through
+	// the write path again and are not new writes, so subscribers must not be told about them.
+	moved bool
 }
 
 func (e *Entry) isZero() bool {
